@@ -21,6 +21,7 @@ import vlib
 
 sys.path.insert(0, os.path.join(vlib.VERIF, "gen"))
 import englib  # noqa: E402
+import engpat  # noqa: E402
 import eng_facts  # noqa: E402
 import keymaps  # noqa: E402
 
@@ -233,7 +234,14 @@ def run(ctx):
     stock.append(("luna_pinyin", ["getctx"] + ["key %d 0" % ord(c) for c in "ei"] + ["key 65364 0"] * 3 + ["opt zh_simp 1", "getctx"]))
     stock.append(("luna_pinyin", ["getctx"] + ["key %d 0" % ord(c) for c in "nihaoma"] +
                   ["key 65361 0", "key 65367 0"] + ["key 65288 0"] * 3 + ["key 65361 0", "key 65363 4", "getinput"]))
+    # round 3: the schema switcher opened idle / while composing and driven through the API while its menu shows (stock only:
+    # the synthetic workspace has no hot key); fully converted compositions kept by _auto_commit off, with soft_cursor
+    n_sw = 80 if quick else 600
+    stock += [(englib.STOCK[i % 4], engpat.gen_switcher_history(rng)) for i in range(n_sw)]
+    stock += [(englib.STOCK[i % 4], engpat.gen_no_autocommit_history(rng)) for i in range(n_sw // 2)]
+    synth += [(englib.SYNTH[i % 2], engpat.gen_no_autocommit_history(rng)) for i in range(n_sw // 2)]
     ctx.coverage["pattern_histories"] = {"span_cache": 2 * n_pat, "option_toggle": 2 * n_pat,
+                                         "switcher_open": n_sw, "no_auto_commit": 2 * (n_sw // 2),
                                          "opencc_data": os.path.isdir(englib.OPENCC)}
 
     stats = collections.Counter()
